@@ -333,6 +333,11 @@ def w_chain(ctx, rng, i):
     ctx.case(("chain", i))
 
 
+def FORM_TWINS():
+    import opticomlib.utils as ut
+    return [(ut, ["db", "dbm", "idb", "idbm", "Q", "gaus", "rcos", "dec2bin", "si", "str2array"])]
+
+
 WORKLOADS = [
     Workload("db", w_db, 600, 60000),
     Workload("Q_gaus", w_q, 150, 6000),
